@@ -17,6 +17,13 @@ pub(crate) const MAX_PARSE_NODE_CONTEXT: usize = 5;
 #[path = "parse_tree_xml.rs"]
 mod parse_tree_xml;
 
+#[cfg(feature = "penne_verif")]
+thread_local! {
+	// Verification hook H5: number of slots of the node buffer that have
+	// been initialised by `ParseBuffer::push` since `ParseTree::buffer`.
+	static VERIF_NODE_PUSHES: std::cell::Cell<usize> = const { std::cell::Cell::new(0) };
+}
+
 #[derive(Debug)]
 pub struct ParseTree
 {
@@ -48,6 +55,17 @@ impl ParseTree
 		let error_cap = std::cmp::min(num_tokens, MAX_NUM_PARSING_ERRORS);
 		let errors = Vec::with_capacity(error_cap);
 
+		#[cfg(feature = "penne_verif")]
+		if crate::verif_trace::is_on()
+		{
+			crate::verif_trace::emit(format!(
+				"{{\"ev\":\"nodecap\",\"toks\":{},\"cap\":{},\"declcap\":{},\"errcap\":{}}}",
+				tokens.base_tokens().len(),
+				nodes.capacity(),
+				declarations.capacity(),
+				errors.capacity(),
+			));
+		}
 		Self {
 			nodes,
 			declarations,
@@ -65,6 +83,8 @@ impl ParseTree
 		assert_eq!(nodes.len(), 0);
 		assert_eq!(declarations.len(), 0);
 		assert_eq!(errors.len(), 0);
+		#[cfg(feature = "penne_verif")]
+		VERIF_NODE_PUSHES.with(|x| x.set(0));
 		ParseBuffer {
 			num_nodes: 0,
 			nodes: nodes.spare_capacity_mut(),
@@ -86,6 +106,18 @@ impl ParseTree
 		// place where `num_nodes` is modified. The caller guarantees the
 		// `num_nodes` argument comes from `into_num_initialized_nodes`.
 		unsafe { self.nodes.set_len(num_nodes) };
+		#[cfg(feature = "penne_verif")]
+		if crate::verif_trace::is_on()
+		{
+			crate::verif_trace::emit(format!(
+				"{{\"ev\":\"nodelen\",\"n\":{},\"pushes\":{},\"cap\":{},\"decls\":{},\"errs\":{}}}",
+				num_nodes,
+				VERIF_NODE_PUSHES.with(|x| x.get()),
+				self.nodes.capacity(),
+				self.declarations.len(),
+				self.errors.len(),
+			));
+		}
 
 		if self.nodes.len() * 2 < self.nodes.capacity()
 		{
@@ -138,11 +170,22 @@ impl<'buffer> ParseBuffer<'buffer>
 		let i = self.num_nodes;
 		if i >= self.nodes.len()
 		{
+			#[cfg(feature = "penne_verif")]
+			if crate::verif_trace::is_on()
+			{
+				crate::verif_trace::emit(format!(
+					"{{\"ev\":\"nodefull\",\"i\":{},\"cap\":{}}}",
+					i,
+					self.nodes.len(),
+				));
+			}
 			panic!("Number of parse nodes greatly exceeds number of tokens");
 		}
 		let node_id = NodeId(U24::new(i));
 		self.nodes[i].write(node);
 		self.num_nodes += 1;
+		#[cfg(feature = "penne_verif")]
+		VERIF_NODE_PUSHES.with(|x| x.set(x.get() + 1));
 		node_id
 	}
 
@@ -282,6 +325,14 @@ impl<'buffer> ParseBuffer<'buffer>
 		{
 			let node = self.push(ParseNode::EndlessPrivateZone);
 			self.active_private_zone = Some(node);
+			#[cfg(feature = "penne_verif")]
+			if crate::verif_trace::is_on()
+			{
+				crate::verif_trace::emit(format!(
+					"{{\"ev\":\"zstart\",\"start\":{}}}",
+					usize::from(node.0),
+				));
+			}
 		}
 	}
 
@@ -295,6 +346,15 @@ impl<'buffer> ParseBuffer<'buffer>
 				start,
 				ParseNode::StartPrivateZone { end },
 			);
+			#[cfg(feature = "penne_verif")]
+			if crate::verif_trace::is_on()
+			{
+				crate::verif_trace::emit(format!(
+					"{{\"ev\":\"zone\",\"start\":{},\"end\":{}}}",
+					usize::from(start.0),
+					usize::from(end.0),
+				));
+			}
 		}
 	}
 
@@ -318,6 +378,16 @@ impl<'buffer> ParseBuffer<'buffer>
 	{
 		assert!(self.declarations.len() < self.declarations.capacity());
 		self.declarations.push(node);
+		#[cfg(feature = "penne_verif")]
+		if crate::verif_trace::is_on()
+		{
+			crate::verif_trace::emit(format!(
+				"{{\"ev\":\"decl\",\"k\":{},\"node\":{},\"private\":{}}}",
+				self.declarations.len(),
+				usize::from(node.0),
+				self.active_private_zone.is_some(),
+			));
+		}
 	}
 
 	pub(super) fn store_error(&mut self, error: ParsingError)
@@ -377,6 +447,8 @@ impl ParseTree
 			buffer[num_public_nodes].write(node);
 			num_public_nodes += 1;
 		};
+		#[cfg(feature = "penne_verif")]
+		let mut verif_num_pushed: usize = 0;
 		let mut i = 0;
 		while i < self.nodes.len()
 		{
@@ -391,6 +463,14 @@ impl ParseTree
 						self.nodes[i],
 						ParseNode::EndPrivateZone { .. }
 					));
+					#[cfg(feature = "penne_verif")]
+					if crate::verif_trace::is_on()
+					{
+						crate::verif_trace::emit(format!(
+							"{{\"ev\":\"hskip\",\"end\":{},\"skipped\":{},\"public\":{}}}",
+							i, num_skipped_nodes, verif_num_pushed,
+						));
+					}
 					i += 1;
 					continue;
 				}
@@ -404,11 +484,36 @@ impl ParseTree
 				{
 					push(node.convert_for_head(num_skipped_nodes));
 					i += 1;
+					#[cfg(feature = "penne_verif")]
+					{
+						verif_num_pushed += 1;
+					}
+					#[cfg(feature = "penne_verif")]
+					if node.is_declaration() && crate::verif_trace::is_on()
+					{
+						crate::verif_trace::emit(format!(
+							"{{\"ev\":\"hstep\",\"i\":{},\"skipped\":{},\"public\":{}}}",
+							i - 1, num_skipped_nodes, verif_num_pushed,
+						));
+					}
 				}
 			}
 		}
 		// Safety: `num_public_nodes` is only modified in the `push` closure.
 		unsafe { nodes.set_len(num_public_nodes) };
+		#[cfg(feature = "penne_verif")]
+		if crate::verif_trace::is_on()
+		{
+			crate::verif_trace::emit(format!(
+				"{{\"ev\":\"hlen\",\"n\":{},\"pushes\":{},\"cap\":{},\"skipped\":{},\"stop\":{},\"total\":{}}}",
+				num_public_nodes,
+				verif_num_pushed,
+				nodes.capacity(),
+				num_skipped_nodes,
+				i,
+				self.nodes.len(),
+			));
+		}
 	}
 }
 
